@@ -7,6 +7,7 @@ self-test analyse mutated sources in memory without touching the disk.
 from __future__ import annotations
 
 import ast
+import os
 from pathlib import Path
 
 from .core import AnalysisError
@@ -113,7 +114,7 @@ class Cls:
 
 
 class SourceModel:
-    def __init__(self, repo: Path, overlay: dict[str, str] | None = None):
+    def __init__(self, repo: Path, overlay: dict[str, str] | None = None, normalise_renames: bool = True):
         self.repo = Path(repo)
         self.overlay = overlay or {}
         self.modules: dict[str, ast.Module] = {}
@@ -123,15 +124,24 @@ class SourceModel:
         root = self.repo / PKG
         if not root.is_dir():
             raise AnalysisError(f"package directory {root} not found")
+        texts: dict[str, str] = {}
         for p in sorted(root.rglob("*.py")):
             rel = str(p.relative_to(self.repo))
             src = self.overlay.get(rel)
             if src is None:
                 src = p.read_text()
-            self._add(rel, src)
+            texts[rel] = src
         for rel, src in self.overlay.items():
-            if rel.endswith(".py") and rel not in self.modules:
-                self._add(rel, src)
+            if rel.endswith(".py") and rel not in texts:
+                texts[rel] = src
+        # private functions that were only renamed are analysed under the name the rules know (sa/alpha.py)
+        self.renamed: dict[str, str] = {}
+        if normalise_renames and not os.environ.get("VERIF_NO_ALPHA"):
+            from . import alpha
+
+            texts, self.renamed = alpha.normalise(texts)
+        for rel, src in texts.items():
+            self._add(rel, src)
         self.n_functions = len(self.funcs)
 
     # ------------------------------------------------------------------
